@@ -431,7 +431,11 @@ func GenConc(seed uint64, prop, target string) (*Scenario, map[string]int64) {
 		// overlapping times (cheap: Equal against a scalar validates, then compares one level), so
 		// that distinct pooled scanners have grown their nesting stacks before the ordinary calls
 		// draw them from the pool.
-		deep := sg.addBuf(g.Deep(1030 + r.Intn(400)))
+		dt := g.Deep(1030 + r.Intn(400))
+		if r.Bool() {
+			dt = dt[:len(dt)/2-r.Intn(5)] // torn: the scan is abandoned more than 1024 levels down
+		}
+		deep := sg.addBuf(dt)
 		one := sg.addBuf("1")
 		for t := range sg.sc.Tasks {
 			if t < 2 || r.Bool() {
